@@ -55,6 +55,9 @@ FAMILIES = {
     # start position (quadratic number of sub-matcher runs, each far shorter than a poll interval)
     "lb_scan_quadratic": ("(?<=b.*)c", lambda n: "a" * n, True),
     "lb_scan_quadratic2": ("(?<!b.*)c", lambda n: "a" * n, True),
+    "exact_repeat": ("a{200}b", lambda n: "a" * n, False),
+    "long_literal": ("a" * 120 + "b", lambda n: "a" * n, False),
+    "class_exact": ("[a-c]{150}d", lambda n: "abc" * (n // 3), False),
     "benign_scan": ("ab", lambda n: "a" * n, False),
     "quadratic_class": ("[a-c]+d", lambda n: "abc" * (n // 3), False),
 }
@@ -144,6 +147,9 @@ def gen_case(seed, i, tier="quick"):
             n = rng.choice((20, 26, 30))
     if fam == "benign_scan":
         n = rng.choice((10, 1000, 10000))   # linear: two steps per start position
+    if fam in ("exact_repeat", "long_literal", "class_exact"):
+        n = rng.choice((300, 1000, 3000, 8000))
+        step = max(step, 1000)
     if fam.startswith("lb_scan_quadratic"):
         n = rng.choice((200, 600, 900) if tier == "quick" else (200, 600, 1500, 3000))
     if rng.random() < 0.1:
